@@ -29,7 +29,7 @@ import (
 )
 
 var st = stat.New("C15",
-	"Case = 2..4 scripted servers (unweighted or all statically weighted) behind a registry-backed proxy, 4..40 steps from {call x1..8, advance clock by 1|2|3|6|8|25|31|40|61|90 s, status check, flip a server between ok and failing (silent) or between up and down (connections closed, dials refused), registry refresh after the registry's answer changed in an attribute that is not part of an endpoint's identity (QoS)}. Model per endpoint: failures/successes since (re)instatement, consecutive failures, model time since last success / since the failure streak began / since the last probe, observed rotation membership. Assertions (threshold assertions only when the model time is >= 2 s away from the threshold): an endpoint leaves rotation only with >= 2 failures since it was (re)instated (never with 0); >= 5 consecutive failures over >= 5 s with another endpoint active => out of rotation after the next status check; an endpoint that is out of rotation receives calls only as probes: never without a status check since it left rotation / since the previous probe, and two probes only if >= 30 s can lie between the status checks that scheduled them; a successful probe puts it back (it is listed again, and an in-rotation endpoint whose server answers receives ordinary traffic within two full cycles, also with static weights), a failed probe leaves it out; with every endpoint out of rotation calls are still attempted on some endpoint. Non-trivial = history with block -> >= 30 s -> probe -> reinstatement, or all endpoints blocked. Distinct = distinct case JSON.",
+	"Case = 2..4 scripted servers (unweighted or all statically weighted) behind a registry-backed proxy, all calls two-way or (a fifth of the cases) all one-way - a one-way call fails only when its request cannot be sent, 4..40 steps from {call x1..8, advance clock by 1|2|3|6|8|25|31|40|61|90 s, status check, flip a server between ok and failing (silent) or between up and down (connections closed, dials refused), registry refresh after the registry's answer changed in an attribute that is not part of an endpoint's identity (QoS)}. Model per endpoint: failures/successes since (re)instatement, consecutive failures, model time since last success / since the failure streak began / since the last probe, observed rotation membership. Assertions (threshold assertions only when the model time is >= 2 s away from the threshold): an endpoint leaves rotation only with >= 2 failures since it was (re)instated (never with 0); >= 5 consecutive failures over >= 5 s with another endpoint active => out of rotation after the next status check; an endpoint that is out of rotation receives calls only as probes: never without a status check since it left rotation / since the previous probe, and two probes only if >= 30 s can lie between the status checks that scheduled them; a successful probe puts it back (it is listed again, and an in-rotation endpoint whose server answers receives ordinary traffic within two full cycles, also with static weights), a failed probe leaves it out; with every endpoint out of rotation calls are still attempted on some endpoint. Non-trivial = history with block -> >= 30 s -> probe -> reinstatement, or all endpoints blocked. Distinct = distinct case JSON.",
 	"clock advances shift the adapters' timestamps through an overlay accessor; real elapsed time (< 3 s per case) is added to the model with second granularity margins",
 	"the process-wide background status and refresh tickers are disabled (intervals of ~11 days set before the first proxy is created) so that status checks happen only where the history says")
 
@@ -48,10 +48,14 @@ type Case struct {
 	Weights  []int32 `json:"weights,omitempty"`
 	NServers int     `json:"n_servers"`
 	Steps    []Step  `json:"steps"`
+	// OneWay: every call of the case is a one-way call (it fails only when the request cannot
+	// be sent - a server that is down - and succeeds against a server that merely stays silent)
+	OneWay bool `json:"one_way,omitempty"`
 }
 
 func draw(rt *rapid.T) Case {
 	c := Case{NServers: rapid.IntRange(2, 4).Draw(rt, "nservers")}
+	c.OneWay = rapid.IntRange(0, 4).Draw(rt, "oneWay") == 0
 	if rapid.IntRange(0, 2).Draw(rt, "weighted") == 0 {
 		for i := 0; i < c.NServers; i++ {
 			c.Weights = append(c.Weights, int32(rapid.SampledFrom([]int{1, 2, 5, 10, 30, 100}).Draw(rt, "weight")))
@@ -92,7 +96,13 @@ func draw(rt *rapid.T) Case {
 			add(Step{Op: "check"})
 			add(Step{Op: "call", N: c.NServers})
 		}
-		add(Step{Op: "flip", Target: tgt})
+		// the target fails by staying silent or - always when the calls are one-way, which a
+		// silent server does not make fail - by going down (dials refused)
+		failKind := 0
+		if c.OneWay || rapid.IntRange(0, 2).Draw(rt, "targetGoesDown") == 0 {
+			failKind = 1
+		}
+		add(Step{Op: "flip", Target: tgt, N: failKind})
 		for k := rapid.IntRange(5, 8).Draw(rt, "failRounds"); k > 0; k-- {
 			add(Step{Op: "call", N: c.NServers})
 		}
@@ -109,7 +119,7 @@ func draw(rt *rapid.T) Case {
 		refresh()
 		recovers := rapid.IntRange(0, 3).Draw(rt, "recovers") > 0
 		if recovers {
-			add(Step{Op: "flip", Target: tgt})
+			add(Step{Op: "flip", Target: tgt, N: failKind})
 		}
 		add(Step{Op: "call", N: rapid.IntRange(0, 8).Draw(rt, "mid")})
 		refresh()
@@ -298,7 +308,30 @@ func run(c Case) *stat.Failure {
 			_, _, sc, _ := a.VerifCounters()
 			sendsBefore[h] = sc
 		}
-		err = sp.TarsInvoke(ctx, 0, "echo", buf, nil, nil, resp)
+		cType := byte(0)
+		if c.OneWay {
+			cType = 1 // basef.TARSONEWAY
+		}
+		err = sp.TarsInvoke(ctx, cType, "echo", buf, nil, nil, resp)
+		if c.OneWay && err == nil {
+			// the request is written by the sender goroutine after the call returned
+			dl := time.Now().Add(30 * time.Millisecond)
+			for time.Now().Before(dl) {
+				seen := false
+				for i := 0; i < c.NServers && !seen; i++ {
+					reqs, _, _ := servers[i].Snapshot()
+					for j := len(reqs) - 1; j >= 0 && j >= len(reqs)-4; j-- {
+						if len(reqs[j].Buffer) >= 4 && binary.BigEndian.Uint32(reqs[j].Buffer) == tok {
+							seen = true
+						}
+					}
+				}
+				if seen {
+					break
+				}
+				time.Sleep(200 * time.Microsecond)
+			}
+		}
 		server = -1
 		for i := 0; i < c.NServers; i++ {
 			reqs, _, _ := servers[i].Snapshot()
@@ -555,7 +588,11 @@ func TestC15(t *testing.T) {
 		if c.Weights != nil {
 			wcls = "static-weights"
 		}
-		st.CaseJSON(c, flips >= 1 && adv30 >= 1, fmt.Sprintf("servers-%d", c.NServers), wcls)
+		cw := "calls-two-way"
+		if c.OneWay {
+			cw = "calls-one-way"
+		}
+		st.CaseJSON(c, flips >= 1 && adv30 >= 1, fmt.Sprintf("servers-%d", c.NServers), wcls, cw)
 		st.Class("steps", int64(len(c.Steps)))
 		return run(c)
 	})
